@@ -48,7 +48,8 @@ class C15(Machine):
     probe_names = ("repeated_generator_call", "after_fourier_call",
                    "after_normalize", "twins_nonempty", "twin_jump_taken",
                    "walk_restart", "identical_gaussians_or_sticky",
-                   "odd_length", "even_length", "rp_twin_surrogates_ok")
+                   "odd_length", "even_length", "rp_twin_surrogates_ok",
+                   "float32_input")
     real_vs_stub = {"real": ["Surrogates (all generators, twins, "
                              "normalisation, embedding), RecurrencePlot."
                              "twins / twin_surrogates, the compiled twin and "
@@ -77,7 +78,8 @@ class C15(Machine):
         a, o = S["args"], S["ops"]
         d = {"N": a.choice((1, 1, 2, 3, 4)), "T": a.randrange(8, 41),
              "kind": a.choice(("ar", "periodic", "periodic")),
-             "s": a.randrange(10 ** 9)}
+             "s": a.randrange(10 ** 9),
+             "dtype": a.choice(("float64", "float64", "float64", "float32"))}
         cfg = {"lru": lru, "personality": a.choice(PERSONALITIES),
                "rp": {"dim": a.choice((1, 2, 3)), "tau": a.choice((1, 1, 2)),
                       "thr": a.choice((0.05, 0.3, 1.0))}}
@@ -111,11 +113,17 @@ class C15(Machine):
         S = Streams(run["seed"], self.pid, "draws", run["run"])
         sr = RNG.ScriptedRandom(S["draws"], cfg["personality"])
         X = make_data(d)                 # the model's original data
+        if d.get("dtype") == "float32":
+            # the caller's array is single precision; the model holds the
+            # same values
+            X = X.astype(np.float32).astype(np.float64)
+            R.probe("float32_input")
         N, T = X.shape
         R.probe("odd_length" if T % 2 else "even_length")
         if cfg["personality"] in ("sticky", "low_entropy"):
             R.probe("identical_gaussians_or_sticky")
-        sur = Surrogates(X.copy(), silence_level=3)
+        sur = Surrogates(X.astype(d.get("dtype", "float64")),
+                         silence_level=3)
         rpc = cfg["rp"]
         n_rp = T - (rpc["dim"] - 1) * rpc["tau"]
         if n_rp < 3:
@@ -133,6 +141,8 @@ class C15(Machine):
         gen_calls = 0
         sig = [cfg["personality"], N, T % 2]
         self._R = R
+        # single-precision data carry single-precision spectra
+        self._spec_tol = 1e-5 if d.get("dtype") == "float32" else 1e-9
         with RNG.installed(sr):
             for step, op in enumerate(run["ops"]):
                 R.steps += 1
@@ -145,9 +155,16 @@ class C15(Machine):
                 try:
                     if k == "normalize":
                         sur.normalize_original_data()
-                        mu = X.mean(axis=1, keepdims=True)
-                        sd = X.std(axis=1, keepdims=True)
-                        X = (X - mu) / np.where(sd != 0, sd, 1.0)
+                        # zero mean, unit variance per series, evaluated in
+                        # the precision of the caller's array
+                        Xd = X.astype(d.get("dtype", "float64"))
+                        mu = Xd.mean(axis=1)
+                        sd = Xd.std(axis=1)
+                        for i in range(N):
+                            Xd[i, :] -= mu[i]
+                            if sd[i] != 0:
+                                Xd[i, :] /= sd[i]
+                        X = Xd.astype(np.float64)
                         normalized = True
                         continue
                     if k == "embed":
@@ -274,7 +291,7 @@ class C15(Machine):
             return self._bad("shape", f"step {step}: shape {out.shape} vs "
                                       f"{X.shape}")
         dev = RS.spectrum_dev(out, X)
-        if not dev <= 1e-9:
+        if not dev <= self._spec_tol:
             self._bad("amplitude-spectrum",
                       f"step {step}: amplitude spectrum deviates by {dev:.3g} "
                       f"(relative to the largest amplitude) at non-zero, "
